@@ -41,6 +41,32 @@ func (r *Rng) flatOf(pts [][2]float64, stride int) []float64 {
 	return f
 }
 
+// withRepeats writes some vertices of a closed ring twice in a row (same x,y; the extra ordinates
+// drawn afterwards differ): the ring is the same point set, traversed with pauses.
+func (r *Rng) withRepeats(rg [][2]float64) [][2]float64 {
+	if len(rg) < 4 || !r.chance(1, 4) {
+		return rg
+	}
+	// the highest vertex (where the direction test looks) is the likeliest to matter
+	top := 0
+	for i, p := range rg[:len(rg)-1] {
+		if p[1] > rg[top][1] {
+			top = i
+		}
+	}
+	out := make([][2]float64, 0, len(rg)+4)
+	for i, p := range rg {
+		out = append(out, p)
+		if i < len(rg)-1 && (i == top && r.chance(2, 3) || r.chance(1, 6)) {
+			out = append(out, p)
+			if r.chance(1, 4) {
+				out = append(out, p)
+			}
+		}
+	}
+	return out
+}
+
 func runSx(stride int, flat []float64) string { return fmt.Sprintf("(%d %s)", stride, sxCoord(flat)) }
 
 func okPt(c geom.Coord) string { return fmt.Sprintf("(ok (%s %s))", hexF(c[0]), hexF(c[1])) }
@@ -187,7 +213,7 @@ func genC14(r *Rng, e *Emitter, n int) {
 				var ends []int
 				var rsx []string
 				for _, rg := range rings {
-					f := r.flatOf(rg, stride)
+					f := r.flatOf(r.withRepeats(rg), stride)
 					rsx = append(rsx, runSx(stride, f))
 					flat = append(flat, f...)
 					ends = append(ends, len(flat))
@@ -239,7 +265,7 @@ func genC14(r *Rng, e *Emitter, n int) {
 				rg = append(rect, rect[0])
 				e.tally("ring=rectangle-with-midpoint")
 			}
-			flat := r.flatOf(rg, stride)
+			flat := r.flatOf(r.withRepeats(rg), stride)
 			e.tally("op=ring")
 			e.emit("C14.ring", runSx(stride, flat), guard(func() string {
 				return fmt.Sprintf("(%v %s)", xy.IsRingCounterClockwise(l, flat), hexF(xy.SignedArea(l, flat)))
